@@ -1,0 +1,56 @@
+use std::ptr;
+
+/// An iterator owning `len` initialized elements starting at `ptr`:
+/// it yields them by value and drops the ones that are not yielded.
+///
+/// Only the elements are owned; the memory belongs to the concurrent iterator which reserved the positions.
+pub(crate) struct TakenSlice<T> {
+    ptr: *mut T,
+    len: usize,
+}
+
+impl<T> TakenSlice<T> {
+    /// # Safety
+    ///
+    /// `ptr` must point to `len` consecutive initialized elements which are not accessed by anyone else,
+    /// and the memory must outlive the created iterator.
+    pub(crate) unsafe fn new(ptr: *mut T, len: usize) -> Self {
+        Self { ptr, len }
+    }
+}
+
+impl<T> Iterator for TakenSlice<T> {
+    type Item = T;
+
+    #[inline]
+    fn next(&mut self) -> Option<Self::Item> {
+        match self.len {
+            0 => None,
+            _ => {
+                // SAFETY: `ptr` points to an initialized element which is read exactly once
+                let value = unsafe { self.ptr.read() };
+                self.ptr = unsafe { self.ptr.add(1) };
+                self.len -= 1;
+                Some(value)
+            }
+        }
+    }
+
+    #[inline]
+    fn size_hint(&self) -> (usize, Option<usize>) {
+        (self.len, Some(self.len))
+    }
+}
+
+impl<T> ExactSizeIterator for TakenSlice<T> {}
+
+impl<T> Drop for TakenSlice<T> {
+    fn drop(&mut self) {
+        // SAFETY: the remaining `len` elements are initialized and owned by this iterator
+        unsafe { ptr::drop_in_place(ptr::slice_from_raw_parts_mut(self.ptr, self.len)) }
+    }
+}
+
+unsafe impl<T: Send> Send for TakenSlice<T> {}
+
+unsafe impl<T: Sync> Sync for TakenSlice<T> {}
